@@ -1,8 +1,9 @@
 (* Pins: full statements of the C20 theorems; a weakened theorem no longer type-checks here.
    Generated once by tools/mkpins.py from Props/C20.v and then committed: edit both or neither. *)
 From SV Require Import Lib.Base Gen.Consts Gen.WireFields Model.WireBase Model.WireSixFrag Model.WireNhc.
-From SV Require Import Model.Assembler Model.LowpanFrag.
+From SV Require Import Model.Assembler Model.LowpanFrag Model.WireIphc.
 From SV Require Import Proofs.WireBaseProofs Proofs.AssemblerProofs Proofs.LowpanWireProofs Proofs.LowpanFragProofs.
+From SV Require Import Proofs.LowpanIphcBitsProofs Proofs.LowpanIphcProofs.
 From SV Require Import Props.C20.
 
 Check (C20_frag_hdr_roundtrip : forall r b,
@@ -118,3 +119,15 @@ Check (C20_lowpan_fragments_reassemble :
                    Forall (slot_inv D (ll_src, ll_dst, blen D, tag)) ss' /\ Forall (fun d => d = D) ds).
 
 Check (C20_configured_sizes : lpf_BUFFER + 48 < 2048 /\ 1 <= lpf_N /\ 1 <= lpf_SLOTS).
+
+Check (C20_iphc_roundtrip : forall r b ctx,
+  iphc_repr_wf r = true -> bytes_ok b = true -> blen (iphc_bytes r) <= blen b ->
+  iphc_buffer_len r = Ok (blen (iphc_bytes r)) /\
+  iphc_emit r b = Ok (iphc_bytes r ++ skipn (Z.to_nat (blen (iphc_bytes r))) b) /\
+  iphc_parse (iphc_bytes r ++ skipn (Z.to_nat (blen (iphc_bytes r))) b) (ir_ll_src r) (ir_ll_dst r) ctx = Ok r /\
+  iphc_payload (iphc_bytes r ++ skipn (Z.to_nat (blen (iphc_bytes r))) b) = Ok (skipn (Z.to_nat (blen (iphc_bytes r))) b)).
+
+Check (C20_iphc_parse_no_panic : forall b lls lld ctx,
+  iphc_ll_wf lls = true -> iphc_ll_wf lld = true ->
+  iphc_parse b lls lld ctx <> Panic /\ iphc_check_len b <> Panic /\
+  (iphc_check_len b = Ok tt -> iphc_payload b <> Panic /\ iphc_header_len b <> Panic)).
